@@ -58,6 +58,7 @@ var genFiles = []genFile{
 	{Name: "PolicyMatch", Prelude: policyMatchPrelude},
 	{Name: "PolicyOrder", ModelImports: []string{"NodeApi"}},
 	{Name: "Limits", ModelImports: []string{"NodeApi"}, Prelude: "variable (ext_self : Node → GoM Unit)\n", Postlude: limitsPostlude},
+	{Name: "PolicyDecode", Imports: []string{"Limits"}, ModelImports: []string{"NodeApi"}, Prelude: "variable (ext_statementsFromIPLD : Node → GoM (List (Option S)))\n"},
 	{Name: "Args", Imports: []string{"Limits"}, ModelImports: []string{"NodeApi"}, Structs: []string{"args.Args"}},
 	{Name: "ChainEntry", Imports: []string{"ChainTypes"}, Prelude: chainEntryPrelude},
 	{Name: "ChainProofsShell", Imports: []string{"ChainTypes"}, Prelude: "variable (ext_Covers : Bytes → Bytes → GoM Bool)\n"},
@@ -83,6 +84,7 @@ var targets = []target{
 	{Dir: "pkg/policy/limits", Name: "ValidateIntegerBoundsIPLD", Lean: "ValidateIntegerBoundsIPLD_step", File: "Limits", MapIterators: true,
 		Concrete: []string{"datamodel.Node"}, SelfAs: "ext_self", Uses: []string{"ext_self"}},
 	{Dir: "pkg/args", Recv: "Args", Name: "Validate", Lean: "Args_Validate", File: "Args", Concrete: []string{"args.Args", "*args.Args", "datamodel.Node"}},
+	{Dir: "pkg/policy", Name: "FromIPLD", Lean: "Policy_FromIPLD", File: "PolicyDecode", Concrete: []string{"datamodel.Node"}, Uses: []string{"ext_statementsFromIPLD"}},
 	{Dir: "pkg/policy", Name: "parseGlob", Lean: "parseGlob", File: "Glob", Fuel: []string{"pattern.length + 1"}},
 	{Dir: "pkg/policy", Recv: "glob", Name: "Match", Lean: "glob_Match", File: "Glob",
 		Fuel: []string{"(str.length + 1) * (pattern.length + 2) + 1", "pattern.length + 1"}},
@@ -356,37 +358,41 @@ var shellMethods = map[string]libCall{
 // matchStatement is the statement evaluator (tied by the `policy` stream); it returns the result code and the statement to report.
 var externFuncs = map[string]libCall{
 	"pkg/policy.matchStatement": {"(ext_matchStatement $1 $2)", ty{"(Int × (Option S))", "pair"}, []string{"ext_matchStatement"}},
+	// the recursive statement decoder (type switches over an interface, closures that return values): a parameter of FromIPLD's
+	// translation; the path argument only feeds error texts
+	"pkg/policy.statementsFromIPLD": {"(← (ext_statementsFromIPLD $2))", ty{"(List (Option S))", "policy.Policy"}, []string{"ext_statementsFromIPLD"}},
 }
 
 // useTypes: Lean types of the parameters (section variables) that targets may mention
 var useTypes = map[string]string{
-	"lower":                "Bytes → Bytes",
-	"now":                  "Int",
-	"ext_loadProofs":       "InvTok D C A → L → GoM (List (DlgTok D S))",
-	"ext_toIPLD":           "A → GoM N",
-	"ext_executionAllowed": "InvTok D C A → L → A → GoM Unit",
-	"ext_randRead":         "Nat → GoM Bytes",
-	"ext_seal":             "Bytes → Bytes → Bytes → Bytes",
-	"ext_open":             "Bytes → Bytes → Bytes → (Bytes × Bool)",
-	"ext_ReadOnly":         "A → GoM R",
-	"ext_GetDelegation":    "L → C → GoM (DlgTok D S)",
-	"ext_Covers":           "Bytes → Bytes → GoM Bool",
-	"ext_verifyProofs":     "InvTok D C A → List (DlgTok D S) → GoM Unit",
-	"ext_verifyTimeBound":  "InvTok D C A → List (DlgTok D S) → GoM Unit",
-	"ext_verifyArgs":       "InvTok D C A → List (DlgTok D S) → A → GoM Unit",
-	"ext_matchStatement":   "Option S → N → (Int × (Option S))",
-	"ext_mbDecode":         "Bytes → GoM (Int × Bytes)",
-	"ext_didParse":         "Bytes → GoM D",
-	"ext_defined":          "D → Bool",
-	"ext_optionalDID":      "Option Bytes → GoM D",
-	"ext_policyFromIPLD":   "N → GoM (List (Option S))",
-	"ext_newMeta":          "M",
-	"ext_dlgValidate":      "DlgDec D S M → GoM Unit",
-	"ext_invValidate":      "InvDec D C A M → GoM Unit",
-	"ext_argsValidate":     "A → GoM Unit",
-	"ext_fromUvarint":      "Bytes → GoM (Int × Int)",
-	"ext_undef":            "D",
-	"ext_self":             "Node → GoM Unit", // limits.ValidateIntegerBoundsIPLD calling itself (open recursion)
+	"lower":                  "Bytes → Bytes",
+	"now":                    "Int",
+	"ext_loadProofs":         "InvTok D C A → L → GoM (List (DlgTok D S))",
+	"ext_toIPLD":             "A → GoM N",
+	"ext_executionAllowed":   "InvTok D C A → L → A → GoM Unit",
+	"ext_randRead":           "Nat → GoM Bytes",
+	"ext_seal":               "Bytes → Bytes → Bytes → Bytes",
+	"ext_open":               "Bytes → Bytes → Bytes → (Bytes × Bool)",
+	"ext_ReadOnly":           "A → GoM R",
+	"ext_GetDelegation":      "L → C → GoM (DlgTok D S)",
+	"ext_Covers":             "Bytes → Bytes → GoM Bool",
+	"ext_verifyProofs":       "InvTok D C A → List (DlgTok D S) → GoM Unit",
+	"ext_verifyTimeBound":    "InvTok D C A → List (DlgTok D S) → GoM Unit",
+	"ext_verifyArgs":         "InvTok D C A → List (DlgTok D S) → A → GoM Unit",
+	"ext_matchStatement":     "Option S → N → (Int × (Option S))",
+	"ext_mbDecode":           "Bytes → GoM (Int × Bytes)",
+	"ext_didParse":           "Bytes → GoM D",
+	"ext_defined":            "D → Bool",
+	"ext_optionalDID":        "Option Bytes → GoM D",
+	"ext_policyFromIPLD":     "N → GoM (List (Option S))",
+	"ext_newMeta":            "M",
+	"ext_dlgValidate":        "DlgDec D S M → GoM Unit",
+	"ext_invValidate":        "InvDec D C A M → GoM Unit",
+	"ext_argsValidate":       "A → GoM Unit",
+	"ext_fromUvarint":        "Bytes → GoM (Int × Int)",
+	"ext_undef":              "D",
+	"ext_statementsFromIPLD": "Node → GoM (List (Option S))",
+	"ext_self":               "Node → GoM Unit", // limits.ValidateIntegerBoundsIPLD calling itself (open recursion)
 }
 
 // pairTypes: component types of the pair types externs return
